@@ -44,6 +44,11 @@ META = {
         "(not l2g_faces) and the consumer's positional reading of the subproblems() tuple agrees with the "
         "producer. R6: remove_nonlocal_contribution zeroes rows expand(raw_ind, nd) of *every* matrix passed. "
         "R7: the left/right key tables of update_discretization agree with the typing derived from discretize. "
+        "R8: `_bc_for_subgrid` copies every per-face attribute of the boundary condition (set from bc.py's __init__) to "
+        "the attribute of the same name restricted by the face map in its last axis; inside the loop boundary condition "
+        "and constitutive data are cut from the active grid's objects with (sub-grid, l2g_faces) / l2g_cells. "
+        "R9: the cells whose rows of the cell-row matrices are kept/updated are selected with an all-faces criterion "
+        "(today Biot uses `at least one active face`: known finding). "
         "Decides this bookkeeping (a necessary condition for split independence), not equality of matrix values, "
         "not the overlap construction in subproblems()/cell_ind_for_partial_update, not numba-vs-python inverters."),
     "rule_text": "one obligation per (local matrix | accumulator x stage | removal call | map call | key | yield)",
@@ -56,7 +61,7 @@ META = {
                     "today (reported as a note, see final report); set REPORT_KEYED_UPDATE_LEVEL to make it a finding"],
     "technique": "typed dataflow over a statement CFG (reaching definitions + dominance) with set-equality chain",
 }
-MIN_INSTANCES = {"R1": 40, "R2": 22, "R3": 200, "R4": 100, "R5": 15, "R6": 3, "R7": 38}
+MIN_INSTANCES = {"R1": 40, "R2": 22, "R3": 200, "R4": 100, "R5": 15, "R6": 3, "R7": 38, "R8": 30, "R9": 1}
 
 CONV = {"tocsr", "tocsc", "tocoo", "copy"}
 SPARSE_CTORS = {"csr_matrix", "csc_matrix", "coo_matrix", "csr_array", "csc_array", "coo_array"}
@@ -1143,15 +1148,29 @@ def check_function(ctx: Ctx, m: Model) -> dict:
         if not (isinstance(t, ast.Compare) and len(t.ops) == 1 and isinstance(t.ops[0], ast.Eq)):
             raise f.und("test of the no-split shortcut is not an equality", iff.test)
         sides = [f.canon(t.left, iff), f.canon(t.comparators[0], iff)]
+        # one side: number of faces of the grid that is being split; other side: a face count of this subproblem
+        def count_of(x: ast.expr) -> Optional[str]:
+            """which item of the subproblem tuple the face count x is taken from (None: not a count of an item)"""
+            if isinstance(x, ast.Attribute) and x.attr == "size" and isinstance(x.value, ast.Name):
+                return x.value.id
+            if isinstance(x, ast.Call) and call_name(x) == "len" and len(x.args) == 1 and isinstance(x.args[0], ast.Name):
+                return x.args[0].id
+            if (isinstance(x, ast.Subscript) and isinstance(x.value, ast.Attribute) and x.value.attr == "shape"
+                    and isinstance(x.value.value, ast.Name) and u(x.slice) == "0"):
+                return x.value.value.id
+            if isinstance(x, ast.Attribute) and x.attr == "num_faces" and isinstance(x.value, ast.Name) and x.value.id != m.grid:
+                return x.value.id
+            return None
+
         nfs = [x for x in sides if isinstance(x, ast.Attribute) and x.attr == "num_faces" and u(x.value) == m.grid]
-        szs = [x for x in sides if isinstance(x, ast.Attribute) and x.attr == "size" and isinstance(x.value, ast.Name)
-               and x.value.id in T.values()]
-        if len(nfs) != 1 or len(szs) != 1:
-            raise f.und("test of the no-split shortcut is not  <grid>.num_faces == <item of the subproblem tuple>.size", iff.test)
-        ctx.check("R5", szs[0].value.id == T["faces_in"], mod, q, iff,  # type: ignore[attr-defined]
+        oth = [count_of(x) for x in sides if not (isinstance(x, ast.Attribute) and x.attr == "num_faces" and u(x.value) == m.grid)]
+        if len(nfs) != 1 or len(oth) != 1 or oth[0] not in T.values() or oth[0] == T["cells_in"] or oth[0] == T["l2g_cells"]:
+            raise f.und("test of the no-split shortcut is not  <grid>.num_faces == <face count of an item of the subproblem tuple>", iff.test)
+        ctx.check("R5", oth[0] == T["faces_in"], mod, q, iff,
                   "the no-split shortcut overwrites the accumulators, so its test must compare the number of faces with "
-                  "faces_in_subgrid.size (faces discretized by this subproblem); l2g_faces includes the overlap and can "
-                  "cover the whole grid in a split run", construct="no-split shortcut test", facts={"test": u(iff.test)})
+                  "faces_in_subgrid.size (faces owned by this subproblem); l2g_faces / the subgrid include the overlap and can "
+                  "cover the whole grid in a split run, which then loses the contributions of the other subproblems",
+                  construct="no-split shortcut test", facts={"test": u(iff.test), "counted": oth[0]})
 
     # ---------------- R2: rescaling ------------------------------------------------------------------------
     for key, (info, st) in infos.items():
@@ -1194,6 +1213,36 @@ def check_function(ctx: Ctx, m: Model) -> dict:
                   facts={"rows": rows.txt(), "scalings": [u(s.stmt) for s in mine]})
     return dict(names=names, lrem=lrem, frem=frem, gds=gds, globs=globs, ws=ws, accs=accs, af=af, ac=ac,
                 key_loop_ok=key_loop_ok, key_iters=key_iters, has_shortcut=has_shortcut)
+
+
+def kept_cells_criterion(m: Model, r: Removal, af: str) -> tuple[str, str]:
+    """'any' / 'all': how the cells kept by the final cell removal are derived from the active faces."""
+    f = m.f
+    e = f.canon(r.keep, r.stmt, depth=1) if isinstance(r.keep, ast.Name) else r.keep
+    if isinstance(e, ast.Subscript) and _np_call(e.value, {"where", "nonzero"}) and u(e.slice) == "0" and len(e.value.args) == 1:  # type: ignore[attr-defined]
+        x = e.value.args[0]  # type: ignore[attr-defined]
+    elif _np_call(e, {"flatnonzero"}) and len(e.args) == 1:  # type: ignore[union-attr]
+        x = e.args[0]  # type: ignore[union-attr]
+    else:
+        raise f.und("cells kept by the final cell removal are not where(<criterion>)[0]", r.keep)
+
+    def incidence_times_indicator(y: ast.expr) -> bool:
+        if not (isinstance(y, ast.BinOp) and isinstance(y.op, (ast.Mult, ast.MatMult))):
+            return False
+        inc = any(isinstance(n, ast.Attribute) and n.attr == "cell_faces" for n in ast.walk(f.canon(y.left, r.stmt)))
+        ind = isinstance(y.right, ast.Name) and any(d.kind == "sub" and af in d.extra for d in f.defs.get(y.right.id, []))
+        return inc and ind
+
+    if incidence_times_indicator(x):
+        return "any", (f"where({u(x)}): support of (cell-face incidence) x (indicator of {af}) = every cell with AT LEAST ONE active face")
+    if isinstance(x, ast.Compare) and len(x.ops) == 1 and isinstance(x.ops[0], (ast.Eq, ast.GtE)):
+        sides = [x.left, x.comparators[0]]
+        prod = [y for y in sides if incidence_times_indicator(y)]
+        cnt = [y for y in sides if any(isinstance(n, ast.Call) and call_name(n) in ("sum", "diff", "bincount", "getnnz")
+                                       for n in ast.walk(f.canon(y, r.stmt)))]
+        if len(prod) == 1 and cnt:
+            return "all", "number of active faces of the cell == number of faces of the cell"
+    raise f.und("criterion selecting the cells kept by the final cell removal is not recognised", x)
 
 
 def check_chain(ctx: Ctx, m: Model, st: dict) -> dict:
@@ -1282,6 +1331,14 @@ def check_chain(ctx: Ctx, m: Model, st: dict) -> dict:
             ok = isinstance(r.keep, ast.Name) and f.depends(r.keep.id, af, r.stmt)
             ctx.check("R3", ok, mod, q, r.stmt, f"the cells kept by the final cell removal must be derived from the active faces ({af})",
                       construct="final removal over cells: kept set", facts={"kept": u(r.keep)})
+    for r in frem:
+        if r.kind == "C":
+            crit, why = kept_cells_criterion(m, r, af)
+            ctx.check("R9", crit == "all", mod, q, r.stmt,
+                      "a row of a cell-row matrix sums contributions of all faces of the cell, and only the active faces are "
+                      "discretized with a complete stencil: the cells whose rows are kept/updated must be those with ALL faces active; "
+                      f"found {why}", construct="cells kept by the final cell removal: all-faces criterion",
+                      facts={"kept": u(f.canon(r.keep, r.stmt, depth=1)), "criterion": crit})  # type: ignore[arg-type]
     for g, a in acc_of_g.items():
         rows = m.shape[a][0]
         cover = [r for r in frem if g in r.names]
@@ -1546,6 +1603,136 @@ def check_tables(ctx: Ctx, mod, cls: str, key_spaces: dict) -> None:
               construct="update tables list only stored keys")
 
 
+BC_FILE = "src/porepy/params/bc.py"
+
+
+def _per_face_attrs(ctx: Ctx, cls: str) -> set[str]:
+    """Attributes of a boundary-condition class that hold one entry per face (initialised in
+    __init__ by an array constructor whose shape mentions num_faces)."""
+    mod = ctx.repo.module(BC_FILE)
+    fn = mod.func(f"{cls}.__init__")
+    out = set()
+    for s in stmts_local(fn):
+        tgt = s.targets[0] if isinstance(s, ast.Assign) and len(s.targets) == 1 else (s.target if isinstance(s, ast.AnnAssign) else None)
+        val = getattr(s, "value", None)
+        if (isinstance(tgt, ast.Attribute) and isinstance(tgt.value, ast.Name) and tgt.value.id == "self"
+                and isinstance(val, ast.Call) and any(isinstance(n, ast.Attribute) and n.attr == "num_faces" for n in ast.walk(val))):
+            out.add(tgt.attr)
+    if not {"is_dir", "is_neu", "is_rob"} <= out:
+        raise AnchorError(f"{BC_FILE}:{cls}.__init__: per-face flag arrays not found")
+    return out
+
+
+def check_sub_bc(ctx: Ctx, mod, cls: str) -> None:
+    """R8: `_bc_for_subgrid(bc, sub_grid, face_map, ...)`: every per-face attribute of `bc` is copied to the
+    sub-grid condition restricted by `face_map` in its face (last) axis, to the attribute of the same name."""
+    q = f"{cls}._bc_for_subgrid"
+    if mod.get(q) is None:
+        return
+    f = Fn(mod, q)
+    a = [x.arg for x in f.fn.args.args]
+    if len(a) < 4:
+        raise AnchorError(f"{mod.rel}:{q}: signature (self, bc, sub_grid, face_map, ...) expected")
+    bc, sub, fmap = a[1], a[2], a[3]
+    ctor = [(nm, d) for nm, ds in f.defs.items() for d in ds if d.kind == "plain" and isinstance(d.value, ast.Call)
+            and (call_name(d.value) or "").startswith("BoundaryCondition") and d.value.args and u(d.value.args[0]) == sub]
+    if len(ctor) != 1:
+        raise AnchorError(f"{mod.rel}:{q}: construction of the sub-grid boundary condition from {sub} not found")
+    sub_bc, cd = ctor[0]
+    per_face = _per_face_attrs(ctx, call_name(cd.value))  # type: ignore[arg-type]
+
+    def restricted(node: ast.Attribute) -> Optional[bool]:
+        """True: bc.X[..., face_map]; False: used unrestricted; None: inside np.where(...) (global face indices)."""
+        p = f.pm.get(node)
+        if isinstance(p, ast.Subscript) and p.value is node:
+            top = p  # bc.X[i][j]...: the last index of the outermost subscript addresses the face axis
+            while isinstance(f.pm.get(top), ast.Subscript) and f.pm[top].value is top:  # type: ignore[union-attr]
+                top = f.pm[top]
+            last = top.slice.elts[-1] if isinstance(top.slice, ast.Tuple) and top.slice.elts else top.slice
+            return isinstance(last, ast.Name) and last.id == fmap
+        cur = p
+        while cur is not None and not isinstance(cur, ast.stmt):
+            if isinstance(cur, ast.Call) and call_name(cur) in ("where", "flatnonzero", "nonzero"):
+                return None
+            cur = f.pm.get(cur)
+        return False
+
+    copied: dict[str, bool] = {}
+    for s in f.stmts:
+        if isinstance(s, (ast.For, ast.While, ast.If, ast.With, ast.Try, ast.FunctionDef)):
+            roots = [x for x in (getattr(s, "iter", None), getattr(s, "test", None)) if x is not None]  # header only
+        else:
+            roots = [s]
+        reads = [n for r0 in roots for n in ast.walk(r0) if isinstance(n, ast.Attribute) and isinstance(n.value, ast.Name)
+                 and n.value.id == bc and isinstance(n.ctx, ast.Load) and n.attr in per_face]
+        tgt = s.targets[0] if isinstance(s, ast.Assign) and len(s.targets) == 1 else None
+        t = tgt
+        while isinstance(t, ast.Subscript):
+            t = t.value
+        tattr = t.attr if isinstance(t, ast.Attribute) and isinstance(t.value, ast.Name) and t.value.id == sub_bc else None
+        for r in reads:
+            k = restricted(r)
+            if k is None:
+                continue
+            ctx.check("R8", k, mod, q, s,
+                      f"{bc}.{r.attr} holds one entry per face of the original grid: it must be restricted to the faces of the "
+                      f"sub-grid ([..., {fmap}]) like its sibling attributes, otherwise the sub-problem indexes it with local face numbers",
+                      construct=f"{bc}.{r.attr} restricted by {fmap}", facts={"statement": u(s)})
+            if tattr is not None:
+                ctx.check("R8", tattr == r.attr, mod, q, s, f"{sub_bc}.{tattr} is filled from {bc}.{r.attr} (a different attribute)",
+                          construct=f"{sub_bc}.{tattr} <- {bc}.{r.attr}")
+                copied[tattr] = True
+        if tattr is not None and not reads and isinstance(getattr(s, "value", None), ast.Constant):
+            copied.setdefault(tattr, True)  # derived flag (e.g. is_neu cleared where is_dir/is_rob hold)
+    for x in sorted(per_face):
+        ctx.check("R8", x in copied, mod, q, f.fn,
+                  f"per-face attribute {x} of the boundary condition is not transferred to the sub-grid condition",
+                  construct=f"{x}: transferred to the sub-grid condition")
+
+
+def check_restrictions(ctx: Ctx, m: Model, ac: str) -> None:
+    """R8 (call sites): inside the loop, data is restricted from the *active-grid* objects with the local-to-active
+    maps including the overlap (l2g_cells / l2g_faces), the sub-grid being the one yielded by subproblems()."""
+    f, mod, q, T = m.f, m.f.mod, m.f.qual, m.T
+    n_loop = 0
+    for s in f.stmts:
+        for c in [n for n in ast.walk(s) if isinstance(n, ast.Call) and not isinstance(s, (ast.For, ast.If, ast.FunctionDef))]:
+            cn = call_name(c)
+            if cn == "_bc_for_subgrid":
+                args = [u(x) for x in c.args]
+                if len(args) < 3 or c.keywords:
+                    raise f.und("_bc_for_subgrid not called positionally", c)
+                if m.in_loop(s):
+                    n_loop += 1
+                    src = f.reaching(args[0], s) if isinstance(c.args[0], ast.Name) else []
+                    from_active = any(d.value is not None and any(isinstance(k, ast.Call) and call_name(k) == "_bc_for_subgrid"
+                                                                  for k in ast.walk(d.value)) for d in src)
+                    want = [T["sub"], T["l2g_faces"]] + ([m.grid] if len(args) > 3 else [])
+                    ctx.check("R8", from_active and args[1:] == want, mod, q, s,
+                              f"the boundary condition of a sub-problem must be cut from the active grid's condition with "
+                              f"(sub-grid, l2g_faces[, active grid]) = {want}; found {args}", construct="in-loop _bc_for_subgrid arguments",
+                              facts={"args": args, "bc_from_active_grid": from_active})
+                else:
+                    fd = f.reaching(args[2], s) if isinstance(c.args[2], ast.Name) else []
+                    okf = any(d.kind == "tuple" and isinstance(d.value, ast.Call) and call_name(d.value) == "extract_subgrid" and d.pos == 1 for d in fd)
+                    want_tail = [m.sd] if len(args) > 3 else []
+                    ctx.check("R8", args[1] == m.grid and okf and args[3:] == want_tail, mod, q, s,
+                              f"the active grid's boundary condition must be cut with ({m.grid}, faces of the extracted grid"
+                              f"{', ' + m.sd if want_tail else ''}); found {args}", construct="active-grid _bc_for_subgrid arguments")
+            elif cn == "restrict_to_cells" and m.in_loop(s) and isinstance(c.func, ast.Attribute):
+                recv = base_name(c.func.value)
+                arg = u(c.args[0]) if len(c.args) == 1 else None
+                pre = [d for d in f.defs.get(recv or "", []) if m.before_loop(d.stmt) and d.value is not None]
+                from_active = any(isinstance(k, ast.Call) and call_name(k) == "restrict_to_cells" and len(k.args) == 1 and u(k.args[0]) == ac
+                                  for d in pre for k in ast.walk(d.value))
+                ctx.check("R8", arg == T["l2g_cells"] and from_active, mod, q, s,
+                          f"constitutive data of a sub-problem must be the active grid's data (restricted with {ac}) restricted with "
+                          f"l2g_cells (all local cells incl. overlap); found {u(c)}", construct=f"in-loop restriction of {recv}",
+                          facts={"arg": arg, "receiver_from_active_grid": from_active})
+    if n_loop != 1:
+        raise AnchorError(f"{f.where()}: expected one _bc_for_subgrid call inside the subproblem loop, found {n_loop}")
+
+
 def run(ctx: Ctx) -> None:
     for rel, cls in TARGETS:
         mod = ctx.repo.module(rel)
@@ -1553,6 +1740,8 @@ def run(ctx: Ctx) -> None:
         st = check_function(ctx, m)
         key_spaces = check_chain(ctx, m, st)
         check_tables(ctx, mod, cls, key_spaces)
+        check_restrictions(ctx, m, st["ac"])
+        check_sub_bc(ctx, mod, cls)
         ctx.sample({"function": f"{cls}.discretize", "subproblem_tuple": m.T,
                     "accumulators": {a: f"{r.txt()} x {c.txt()}" for a, (r, c) in m.shape.items()},
                     "local_removals": [{"over": r.kind, "nd": u(r.nd), "matrices": r.names} for r in st["lrem"]],
@@ -1647,6 +1836,19 @@ MUTANTS = [
        "    for mat in args[1:]:\n        pp.matrix_operations.zero_rows(mat, eliminate_ind)", "R6"),
     _m("helper-ignores-nd", FVUTILS, "eliminate_ind = pp.array_operations.expand_indices_nd(raw_ind, nd)\n    for mat in args:",
        "eliminate_ind = pp.array_operations.expand_indices_nd(raw_ind, 1)\n    for mat in args:", "R6"),
+    # --- seeded by independent fault-seeding agents (all pass the repo's tests)
+    _m("seed-robin-weight-unrestricted", MPFA, "        sub_bc.robin_weight = bc.robin_weight[face_map]\n", "        sub_bc.robin_weight = bc.robin_weight\n", "R8", control=True),
+    _m("seed-shortcut-test-subgrid-faces", MPFA, "if active_grid.num_faces == faces_in_subgrid.size:", "if active_grid.num_faces == sub_sd.num_faces:", "R5", control=True),
+    _m("seed-update-arm-bound-pressure-vector-source-sibling", MPFA, "            ] = bound_pressure_vector_source_glob[active_faces]\n",
+       "            ] = vector_source_glob[active_faces]\n", "R3"),
+    # --- R8: restriction of boundary conditions / parameters to the sub-problem
+    _m("mpsa-sub-bc-basis-unrestricted", MPSA, "        sub_bc.basis = bc.basis[:, :, face_map]\n", "        sub_bc.basis = bc.basis\n", "R8"),
+    _m("mpfa-sub-bc-wrong-sibling", MPFA, "        sub_bc.is_rob = bc.is_rob[face_map]\n", "        sub_bc.is_rob = bc.is_dir[face_map]\n", "R8"),
+    _m("mpsa-sub-bc-forgets-robin-weight", MPSA, "        sub_bc.robin_weight = bc.robin_weight[:, :, face_map]\n", "", "R8"),
+    _m("mpsa-loop-bc-from-full-grid", MPSA, "                active_bound, sub_g, l2g_faces\n", "                bound, sub_g, l2g_faces\n", "R8"),
+    _m("biot-loop-bc-faces-in-subgrid", BIOT, "                active_bound, sub_sd, l2g_faces\n", "                active_bound, sub_sd, faces_in_subgrid\n", "R8"),
+    _m("biot-loop-tensor-cells-in-subgrid", BIOT, "loc_c = active_constit.restrict_to_cells(l2g_cells)", "loc_c = active_constit.restrict_to_cells(cells_in_subgrid)", "R8"),
+    _m("mpfa-loop-tensor-from-full-grid", MPFA, "loc_k = active_k.restrict_to_cells(l2g_cells)", "loc_k = k.restrict_to_cells(l2g_cells)", "R8"),
     # --- R7: update tables
     _m("biot-divergence-listed-as-face-left", BIOT, "        scalar_cell_left = [\n            self.displacement_divergence_matrix_key,\n",
        "        scalar_cell_left = [\n", "R7"),
